@@ -121,7 +121,8 @@ def run(pid, tier, replay=None):
         [("TestStreamSend", {"VERIF_N": 400 if th else 40}, "stream_send.ndjson", "StreamSendTrace.tla", SS_HEAD, [], ["I_C11send"]),
          ("TestStreamGen", {"VERIF_N": 240 if th else 48, "VERIF_FULL": 1 if th else 0}, "stream.ndjson", "StreamTrace.tla", ST_HEAD, ["P_C11"], []),
          ("TestStreamApp", {"VERIF_N": 96 if th else 24}, "stream_app.ndjson", "StreamTrace.tla", ST_HEAD, ["P_C11"], []),
-         ("TestXportStream", {"VERIF_N": 160 if th else 20}, "xport.ndjson", "StreamTrace.tla", ST_HEAD, ["T_C11xport"], [])],
+         ("TestXportStream", {"VERIF_N": 160 if th else 20}, "xport.ndjson", "StreamTrace.tla", ST_HEAD, ["T_C11xport"], []),
+         ("TestXportReconnect", {"VERIF_N": 40 if th else 6}, "xport_re.ndjson", "StreamTrace.tla", ST_HEAD, ["T_C11xport"], [])],
         "streams of well-formed TLV blocks (sizes 2..8800, 1/3/5-byte type and length forms) many times the 32-packet buffer, read by the real readTlvStream through a scripted "
         "io.Reader (1-byte reads, buffer-filling reads, tiny, large, near-max, reads ending inside every T/L field) and by the application StreamFace over net.Pipe; "
         "every read is validated by ReadOK; sending side: 2..3 goroutines send multi-buffer wires on one real StreamFace, the raw stream read by the peer must keep every "
